@@ -129,7 +129,7 @@ class Builder:
             return
         if self.last_is_comment():
             self.emit(indent + "sep")
-        tagged = tc["tag"] >= 0
+        tagged = tc["tag"] >= 0 and bool(self.tags)  # (no tags configured: no comment is a translator comment)
         tag = self.tags[tc["tag"] % len(self.tags)] if tagged else OTHER_TAG
         run = []
         self.ncomment += 1
@@ -621,7 +621,7 @@ def build(plan):
             "first": c["first"], "off": r.get("off", 0), "split_obs": c.get("split_obs"),
             "tc_far": bool(c.get("tc_far")), "stale": c.get("stale", {"babel": [], "lingua": []}),
         })
-    raw = {"src": src, "enc": plan["enc"], "decl": plan["decl"], "tags": list(plan["tags"]), "calls": calls,
+    raw = {"src": src, "enc": plan["enc"], "decl": plan["decl"], "tags": list(plan["tags"]), "tagjoin": plan.get("tagjoin", " "), "calls": calls,
            "decoys": b.decoys}
     return raw, b.labels
 
